@@ -7,6 +7,7 @@ unsigned char *vf_file_img;
 size_t vf_file_len;
 size_t vf_file_cap;
 _Bool vf_file_openable;
+_Bool vf_fault_enabled; /* harness switch: when 0 no write/close fault is injected */
 
 const void *vf_trk_ptr = 0;
 int vf_trk_kind = 0;
@@ -250,7 +251,7 @@ void vf_stream_write(vf_stream *f, const char *src, long n)
   }
   size_t room = (size_t)f->pos < f->cap ? f->cap - (size_t)f->pos : 0;
   size_t k = (size_t)n;
-  _Bool fault = nondet_vf_fault();
+  _Bool fault = vf_fault_enabled && nondet_vf_fault();
   if (k > room || fault) {
     /* device full / write error: an arbitrary prefix may have been stored */
     f->fail = 1;
@@ -313,31 +314,38 @@ void vf_stream_close(vf_stream *f)
     return;
   }
   f->is_open = 0;
-  if (f->writable && nondet_vf_fault())
+  if (f->writable && vf_fault_enabled && nondet_vf_fault())
     f->fail = 1; /* flushing the buffer failed */
 }
 
 /* ---------------- new / delete */
+/* The allocation-kind / allocation-size ghost state is compiled in only for the units that reason about it
+ * (-DVF_TRACK_ALLOC: c3d constructor/destructor, readers); elsewhere new/delete are plain malloc/free so that
+ * the ghost globals do not have to appear in every assigns clause. */
 void *vf_new_array(size_t n, size_t elem)
 {
   size_t bytes = n * elem; /* callers pass elem == 1 for char arrays; n is at most 2^32 */
+  void *p = vf_malloc(bytes);
+#ifdef VF_TRACK_ALLOC
   if (bytes > vf_max_alloc)
     vf_max_alloc = bytes;
-  void *p = vf_malloc(bytes);
   if (nondet_vf_bool()) {
     vf_trk_ptr = p;
     vf_trk_kind = 1;
   }
+#endif
   return p;
 }
 
 void *vf_new_object(size_t sz)
 {
   void *p = vf_malloc(sz);
+#ifdef VF_TRACK_ALLOC
   if (nondet_vf_bool()) {
     vf_trk_ptr = p;
     vf_trk_kind = 2;
   }
+#endif
   return p;
 }
 
@@ -345,9 +353,11 @@ void vf_delete_array(void *p)
 {
   if (p == 0)
     return;
+#ifdef VF_TRACK_ALLOC
   __CPROVER_assert(p != vf_trk_ptr || vf_trk_kind == 1, "delete[] releases memory obtained from new[]");
   if (p == vf_trk_ptr)
     vf_trk_ptr = 0;
+#endif
   free(p);
 }
 
@@ -355,9 +365,11 @@ void vf_delete_object(void *p)
 {
   if (p == 0)
     return;
+#ifdef VF_TRACK_ALLOC
   __CPROVER_assert(p != vf_trk_ptr || vf_trk_kind == 2, "delete releases memory obtained from new (not new[])");
   if (p == vf_trk_ptr)
     vf_trk_ptr = 0;
+#endif
   free(p);
 }
 
